@@ -237,17 +237,24 @@ func c13Check(c srcCase, r *ev.Rec) error {
 		r.Case(ev.HashStr(c.Text), false, "invalid-utf8-skipped")
 		return nil
 	}
-	root, err := parseOnly(c.Name, c.Text)
-	if err != nil {
-		r.Case(ev.HashStr(c.Text), false, "parser-rejected")
+	// an accept-everything reporter: the lexer and parser carry on after errors, so that the positions of whatever
+	// was lexed can be checked for rejected inputs as well
+	nerrs := 0
+	root, _ := parser.Parse(c.Name, strings.NewReader(c.Text), reporter.NewHandler(reporter.NewReporter(func(reporter.ErrorWithPos) error { nerrs++; return nil }, nil)))
+	if root == nil {
+		r.Case(ev.HashStr(c.Text), false, "no-ast")
 		return nil
 	}
+	rejected := nerrs > 0
 	// a leading byte-order mark is consumed before lexing: offsets and columns are relative to what follows it
 	text := strings.TrimPrefix(c.Text, "\xef\xbb\xbf")
 	items, tabs, multi := 0, false, false
 	seq := root.Items()
 	for it, ok := seq.First(); ok; it, ok = seq.Next(it) {
 		info := root.ItemInfo(it)
+		if info == nil {
+			continue // documented: neither a token nor a comment (the lexer's error item)
+		}
 		st, en := info.Start(), info.End()
 		raw := info.RawText()
 		items++
@@ -263,12 +270,13 @@ func c13Check(c srcCase, r *ev.Rec) error {
 			last := raw[len(raw)-1]
 			if cmt.IsValid() {
 				// a comment's End is the position OF its last character (inclusive), a token's End is exclusive
-				if last < 0x80 {
-					el, ec := refPos(text, st.Offset+len(raw)-1)
-					if en.Line != el || en.Col != ec {
-						return fmt.Errorf("comment %q at offset %d: reported end %d:%d, expected (position of its last character) %d:%d\nline: %q", raw, st.Offset, en.Line, en.Col, el, ec, lineOf(text, st.Offset))
-					}
+				// (the end of a comment is reported at the offset of its last BYTE; the property's rule applied to that
+				// offset - characters started before it - is the reference, also when that byte is inside a character)
+				el, ec := refPos(text, st.Offset+len(raw)-1)
+				if en.Line != el || en.Col != ec {
+					return fmt.Errorf("comment %q at offset %d: reported end %d:%d, expected (reference position of its last byte) %d:%d\nline: %q", raw, st.Offset, en.Line, en.Col, el, ec, lineOf(text, st.Offset))
 				}
+				_ = last
 			} else if last != '\n' && last != '\t' && last < 0x80 {
 				el, ec := refPos(text, st.Offset+len(raw))
 				if en.Line != el || en.Col != ec {
@@ -290,7 +298,7 @@ func c13Check(c srcCase, r *ev.Rec) error {
 	}
 	// every node of the tree: start <= end
 	nodes := 0
-	err = ast.Walk(root, &ast.SimpleVisitor{DoVisitNode: func(n ast.Node) error {
+	err := ast.Walk(root, &ast.SimpleVisitor{DoVisitNode: func(n ast.Node) error {
 		info := root.NodeInfo(n)
 		st, en := info.Start(), info.End()
 		nodes++
@@ -307,6 +315,9 @@ func c13Check(c srcCase, r *ev.Rec) error {
 		return fmt.Errorf("%v\nsource:\n%s", err, text)
 	}
 	var labels []string
+	if rejected {
+		labels = append(labels, "rejected-input-lexed-part-checked")
+	}
 	if tabs {
 		labels = append(labels, "token-after-tab")
 	}
@@ -379,4 +390,81 @@ func TestC13_EnumShortTexts(t *testing.T) {
 		}
 		rec("", 0)
 	})
+}
+
+// c13EveryOffset checks FileInfo.SourcePos at EVERY byte offset of a text (offsets inside a multi-byte character
+// included) against the reference, on a FileInfo whose line table is built from the newlines of the text.
+func c13EveryOffset(c srcCase, r *ev.Rec) error {
+	if !utf8.ValidString(c.Text) {
+		r.Case(ev.HashStr(c.Text), false, "invalid-utf8-skipped")
+		return nil
+	}
+	fi := ast.NewFileInfo(c.Name, []byte(c.Text))
+	for i := 0; i < len(c.Text); i++ {
+		if c.Text[i] == '\n' {
+			fi.AddLine(i + 1)
+		}
+	}
+	multi := false
+	for off := 0; off <= len(c.Text); off++ {
+		got := fi.SourcePos(off)
+		wl, wc := refPos(c.Text, off)
+		if got.Line != wl || got.Col != wc || got.Offset != off {
+			return fmt.Errorf("SourcePos(%d) = %d:%d (offset %d), expected %d:%d\nline: %q", off, got.Line, got.Col, got.Offset, wl, wc, lineOf(c.Text, min(off, len(c.Text))))
+		}
+		if off < len(c.Text) && !utf8.RuneStart(c.Text[off]) {
+			multi = true
+		}
+	}
+	r.Case(ev.HashStr(c.Text), multi && strings.Contains(c.Text, "\t"), "offsets")
+	r.LabelN("offsets-checked", len(c.Text)+1)
+	return nil
+}
+
+func TestC13_EveryOffsetEnum(t *testing.T) {
+	syms := []string{"a", "\t", "\n", "\r", "é", "€", "😀", " "}
+	maxLen := 5
+	if ev.Thorough() {
+		maxLen = 7
+	}
+	ev.RunEnum(t, ev.Spec[srcCase]{ID: "C13", Name: "EveryOffsetEnum",
+		Rule:  fmt.Sprintf("ALL texts of <=%d symbols over {a, tab, LF, CR, 2-/3-/4-byte character, space}: FileInfo.SourcePos at EVERY byte offset (inside multi-byte characters too) equals the reference (line = 1 + newlines before the offset; column = 1 + characters started since the line start, tab to the next multiple of 8); non-trivial = text with a tab and a multi-byte character", maxLen),
+		Check: c13EveryOffset}, true, func(yield func(srcCase) bool) {
+		var rec func(cur string, n int) bool
+		rec = func(cur string, n int) bool {
+			if !yield(srcCase{Name: "t.proto", Text: cur}) {
+				return false
+			}
+			if n == maxLen {
+				return true
+			}
+			for _, s := range syms {
+				if !rec(cur+s, n+1) {
+					return false
+				}
+			}
+			return true
+		}
+		rec("", 0)
+	})
+}
+
+func TestC13_EveryOffsetSources(t *testing.T) {
+	ev.Run(t, ev.Spec[srcCase]{ID: "C13", Name: "EveryOffsetSources", Quick: 300, Thorough: 10000,
+		Rule: "the source generators of C11 (real and generated files with tabs, multi-byte comments, CRLF): SourcePos at every byte offset equals the reference",
+		Gen:  genSourceText, Check: c13EveryOffset})
+}
+
+func TestC13_RejectedInputs(t *testing.T) {
+	ev.Run(t, ev.Spec[srcCase]{ID: "C13", Name: "RejectedInputs", Quick: 1500, Thorough: 50000,
+		Rule: "the mutated inputs of C12 (truncations, unterminated strings and block comments that span lines, hostile fragments) parsed with an accept-everything reporter: every token and comment that was lexed, the EOF token included, is at the reference line and column; same oracle as Positions",
+		Gen: func(t *rapid.T) srcCase {
+			c := genSourceText(t)
+			if gen.Pct(t, 30, "unterminated-comment") {
+				k := gen.Uniform(t, len(c.Text)+1, "pos")
+				return srcCase{Name: c.Name, Text: c.Text[:k] + "/* never\nclosed\n\n" + c.Text[k:]}
+			}
+			return srcCase{Name: c.Name, Text: mutateText(t, c.Text)}
+		},
+		Check: c13Check})
 }
